@@ -92,6 +92,20 @@ fn case_strategy() -> BoxedStrategy<Case> {
                     }
                     return Case { inv: Invocation { args, files, stdin, out: OutKind::Pipe, bin: if dbg { Bin::Debug } else { Bin::Release }, stdin_file_offset: off }, note };
                 }
+                5 if stem.len() % 4 == 0 => {
+                    // standard input is redirected from the very file that is also named
+                    // as an operand (the driver writes standard input's content to
+                    // "stdin.redirect" in the working directory: same path, same inode):
+                    // "xt - f < f" and "xt f - < f" translate the content twice
+                    files.push(FileSpec { name: "stdin.redirect".into(), kind: FileKind::Regular(bytes.clone()) });
+                    args.push("--".into());
+                    if dbg {
+                        args.extend(["-".to_string(), "stdin.redirect".to_string()]);
+                    } else {
+                        args.extend(["stdin.redirect".to_string(), "-".to_string()]);
+                    }
+                    return Case { inv: Invocation { args, files, stdin: bytes, out: OutKind::Pipe, bin: if dbg { Bin::Debug } else { Bin::Release }, stdin_file_offset: Some(0) }, note: "stdin_is_the_named_file" };
+                }
                 5 => {
                     // '-' before / after a file
                     files.push(FileSpec { name: name.clone(), kind: FileKind::Regular(bytes) });
